@@ -213,3 +213,134 @@ def allocator_replay(binp, quick, seed_):
     res["sample"] = recs[len(recs) // 2] if recs else None
     C.drop_scratch(d)
     return res
+
+# ------------------------------------------------------------------ DictObs.tla: the dictionary state machine on recorded streams
+
+LABELS = {"SPANS": "traces", "LOGS": "logs", "UNIVARIATE_METRICS": "metrics", "RESOURCE_ATTRS": "resource-attrs",
+          "SCOPE_ATTRS": "scope-attrs", "NUMBER_DATA_POINTS": "number-dps", "NUMBER_DP_ATTRS": "number-dp-attrs",
+          "NUMBER_DP_EXEMPLARS": "number-dp-exemplars", "NUMBER_DP_EXEMPLAR_ATTRS": "number-dp-exemplar-attrs",
+          "SUMMARY_DATA_POINTS": "summary-dps", "SUMMARY_DP_ATTRS": "summary-dp-attrs", "HISTOGRAM_DATA_POINTS": "histogram-dps",
+          "HISTOGRAM_DP_ATTRS": "histogram-dp-attrs", "HISTOGRAM_DP_EXEMPLARS": "histogram-dp-exemplars",
+          "HISTOGRAM_DP_EXEMPLAR_ATTRS": "histogram-dp-exemplar-attrs", "EXP_HISTOGRAM_DATA_POINTS": "exp-histogram-dps",
+          "EXP_HISTOGRAM_DP_ATTRS": "exp-histogram-dp-attrs", "EXP_HISTOGRAM_DP_EXEMPLARS": "exp-histogram-dp-exemplars",
+          "EXP_HISTOGRAM_DP_EXEMPLAR_ATTRS": "exp-histogram-dp-exemplar-attrs", "LOG_ATTRS": "logs-attrs", "SPAN_ATTRS": "span-attrs",
+          "SPAN_EVENTS": "span-event", "SPAN_EVENT_ATTRS": "span-event-attrs", "SPAN_LINKS": "span-link", "SPAN_LINK_ATTRS": "span-link-attrs"}
+_BITS = {"uint8": 8, "uint16": 16, "uint32": 32, "uint64": 64}
+_CAPS = {8: 255, 16: 65535, 32: 2147483647, 64: 2147483647}
+_LIMIT_BITS = {"": 16, "8": 8, "16": 16, "32": 32, "64": 64}
+
+def dict_records(outs, plan, dest):
+    """Writes one record per (stream, record label, dictionary column, batch) for DictObs.tla; returns their number."""
+    nrec = 0
+    state = {}       # (tr, label, path) -> {"init": bits}
+    dead = set()     # streams whose producer refused / crashed: their counters are no longer predictable
+    mixed = {tr + 1 for tr, st in enumerate(plan) if any(b.get("signal") for b in st["batches"])}
+    with open(dest, "w") as fh:
+        for o in outs:
+            if not os.path.exists(o):
+                continue
+            with open(o) as src:
+                for line in src:
+                    if '"ev":"Encode"' not in line:
+                        continue
+                    e = json.loads(line)
+                    tr = e["tr"]
+                    st = plan[tr - 1]
+                    if e["oc"] != "ok":
+                        dead.add(tr)
+                    if tr in dead or tr in mixed or st["opts"].get("dict") == "none":
+                        continue
+                    lim = _LIMIT_BITS.get(st["opts"].get("dict", ""), 16)
+                    t = st["opts"].get("thr")
+                    thr = [3, 10] if t is None else ([-1, 1] if t < 0 else [int(round(t * 10)), 10])
+                    # schema-update groups per record label
+                    groups = {}
+                    cur = {}
+                    for ob in e["obs"]:
+                        kind, label = ob[0], ob[1]
+                        c = cur.setdefault(label, {"new": False, "ev": {}})
+                        if kind in ("NewField", "MetadataUpdate"):
+                            c["new"] = True
+                        elif kind in ("Upgrade", "Overflow", "Reset"):
+                            c["ev"][ob[2]] = (kind.lower(), ob[5], ob[6], ob[3], ob[4])
+                        elif kind == "SchemaUpdate":
+                            groups.setdefault(label, []).append(("dict" if c["ev"] else "early", c["ev"]))
+                            cur[label] = {"new": False, "ev": {}}
+                    for p in e["pl"]:
+                        label = LABELS.get(p["ptype"])
+                        if label is None or p["indep"] != "ok":
+                            continue
+                        wire = {d[0]: (d[1], d[2]) for d in p["dicts"]}
+                        gl = groups.get(label, [])
+                        paths = set(wire)
+                        for gk, evs in gl:
+                            paths |= set(evs)
+                        for path in sorted(paths):
+                            key = (tr, label, path)
+                            first = key not in state
+                            if first:
+                                init = None
+                                for gk, evs in gl:
+                                    if path in evs:
+                                        ek = evs[path]
+                                        init = _BITS.get(ek[3]) if ek[0] in ("upgrade", "reset") else None
+                                        break
+                                if init is None:
+                                    init = wire.get(path, (8, 0))[0] or 8
+                                state[key] = {"init": init}
+                            init = state[key]["init"]
+                            lo = min(init, lim)
+                            caps = [_CAPS[b] for b in (8, 16, 32, 64) if lo <= b <= lim]
+                            g = []
+                            for gk, evs in gl:
+                                ek = evs.get(path)
+                                g.append([gk, ek[0] if ek else "", ek[1] if ek else 0, ek[2] if ek else 0])
+                            bits, entries = wire.get(path, (0, 0))
+                            rec = {"n": tr, "k": e["k"], "col": "%d|%s|%s" % (tr, label, path), "first": 1 if first else 0,
+                                   "rows": max(p["rows"], 0), "g": g, "bits": bits, "entries": entries, "caps": caps, "thr": thr}
+                            fh.write(json.dumps(rec) + "\n")
+                            nrec += 1
+    return nrec
+
+def run_dictobs(outs, plan, timeout=1200):
+    d = C.scratch("dictobs.")
+    tp = os.path.join(d, "trace.ndjson")
+    n = dict_records(outs, plan, tp)
+    if n == 0:
+        return {"records": 0, "columns": 0, "drift": []}
+    cfg = 'SPECIFICATION Spec\nCONSTANT TraceFile = "trace.ndjson"\nINVARIANT Report\nCHECK_DEADLOCK FALSE\n'
+    r = C.run_tlc(SPEC, "DictObs", cfg, workers=1, timeout=timeout, files={"trace.ndjson": tp})
+    m = re.search(r'<<"DICTOBS-RESULT", (\d+), (\d+), "(.*)">>', r["out"])
+    C.drop_scratch(r["dir"])
+    C.drop_scratch(d)
+    if not m:
+        raise C.Inconclusive("DictObs did not finish:\n" + r["out"][-2500:])
+    return {"records": int(m.group(1)), "columns": int(m.group(2)), "drift": json.loads(m.group(3).encode().decode("unicode_escape"))}
+
+def dictionary_mc(quick):
+    """Exhaustive TLC runs of Dictionary.tla (scaled capacities). Returns (states, generated, runs, issues)."""
+    runs = [('{"a"}', "MCCaps2", 3, 10, 6, 4), ('{"a", "b"}', "MCCaps2", 3, 10, 3, 3), ('{"a"}', "MCCaps3", -1, 1, 9, 3),
+            ('{"a"}', "MCCaps1", 1, 1, 5, 4), ('{"a"}', "MCCaps2", 0, 1, 6, 4)]
+    if not quick:
+        runs += [('{"a", "b"}', "MCCaps2", 3, 10, 4, 4), ('{"a"}', "MCCaps3", 3, 10, 10, 4), ('{"a", "b"}', "MCCaps3", -1, 1, 5, 3)]
+    states = gen = 0
+    out, issues = [], []
+    def one(r):
+        cols, caps, tn, td, maxn, nb = r
+        cfg = ("SPECIFICATION Spec\nCONSTANTS\n Cols = %s\n Caps <- %s\n ThrNum = %d\n ThrDen = %d\n MaxN = %d\n MaxBatches = %d\n MaxRetry = 5\n"
+               " MutNoResetGuard = FALSE\n MutKeepWidening = FALSE\nINVARIANTS TypeOK DictBound NoPanic RetryBound\nPROPERTIES Widening PlainIsFinal\nCHECK_DEADLOCK FALSE\n"
+               % (cols, caps, tn, td, maxn, nb))
+        x = C.run_tlc(SPEC, "MC_Dictionary", cfg, workers=4, timeout=1800)
+        C.drop_scratch(x["dir"])
+        return r, x
+    with ThreadPoolExecutor(max_workers=4) as pool:
+        for r, x in pool.map(one, runs):
+            if x["error"]:
+                raise C.Inconclusive("Dictionary.tla: %s\n%s" % (x["error"], x["out"][-1500:]))
+            if x["violated"]:
+                issues.append("Dictionary.tla %s: %s" % (r, x["violated"]))
+            states += x["distinct"]
+            gen += x["generated"]
+            out.append({"cols": r[0], "caps": r[1], "thr": "%d/%d" % (r[2], r[3]), "maxN": r[4], "batches": r[5],
+                        "distinct": x["distinct"], "generated": x["generated"]})
+    return states, gen, out, issues
